@@ -217,7 +217,7 @@ func (e *c16env) runRow(res *verifrt.Result, idx int, row c16row) {
 		os.WriteFile(filepath.Join(tdir, "mode"), []byte("local"), 0o666)
 	case "off":
 		// (whatever follows the word: an unparseable date does not turn telemetry on)
-		offTexts := []string{"off 2023-03-03", "off", "off 2024-9-3", "off  2024-01-05", "off 2024-02-30", "off 2024-01-05T10:11:12Z", "off since yesterday", " off\n", "off 2023-03-03 extra"}
+		offTexts := []string{"off 2023-03-03", "off", "off 2024-9-3", "off  2024-01-05", "off 2024-02-30", "off 2024-01-05T10:11:12Z", "off since yesterday", " off\n", "off 2023-03-03 extra", "off\n", "off\r\n", "\toff"}
 		os.WriteFile(filepath.Join(tdir, "mode"), []byte(offTexts[idx%len(offTexts)]), 0o666)
 	case "garbage":
 		os.WriteFile(filepath.Join(tdir, "mode"), []byte("\x00\xffwhatever"), 0o666)
